@@ -272,7 +272,11 @@ where
     }
 
     fn call(&mut self, req: Req) -> Self::Future {
-        let mut service = self.inner.clone();
+        // Take the instance that `poll_ready` was called on and leave a fresh clone
+        // behind for the next `poll_ready`/`call` cycle: a clone has not observed
+        // readiness and must not be called directly.
+        let clone = self.inner.clone();
+        let mut service = std::mem::replace(&mut self.inner, clone);
         let config = Arc::clone(&self.config);
         let req_clone = req.clone();
 
